@@ -223,6 +223,12 @@ pub fn c20(cfg: &Cfg) -> Result<(), String> {
 ///  * default FCI / SDES builders are empty (size 0 FCI / header-only packet),
 ///  * owned and borrowed FCI wrappers produce the same bytes for a fixed set of FCI builders.
 pub fn misc() -> Result<u64, String> {
+    misc_for("")
+}
+
+/// `prop` selects the part of the family that speaks about that property: C15 = the operator truth tables (kind / format
+/// gate), anything else = default builders and owned-vs-borrowed wrappers as well.
+pub fn misc_for(prop: &str) -> Result<u64, String> {
     let mut n = 0u64;
     // the type is not nameable from outside the crate: values come from the public trait methods
     let t = || Nack::builder().supports_feedback_type();
@@ -249,6 +255,9 @@ pub fn misc() -> Result<u64, String> {
                 return Err(format!("FciFeedbackPacketType operators wrong for {} {}", i, j));
             }
         }
+    }
+    if prop == "C15" {
+        return Ok(n);
     }
     // default builders are empty
     for (name, r) in [
